@@ -25,6 +25,14 @@ type caseData struct {
 	// It reaches revision numbers with two digits, where the Kubernetes-backed drivers list
 	// records in name order (.v1, .v10, .v11, .v2 ...).
 	LongLimit int `json:"longLimit,omitempty"`
+	// EnumDepth > 0 selects the short exhaustive family: install (ok / readiness failure / first
+	// mutation rejected = EnumInst 0..2) followed by every sequence of EnumDepth upgrades/rollbacks,
+	// each ok / failing at the readiness wait / failing at its first mutation, all under history
+	// limit EnumLimit; judged after every op. It reaches the states in which a failed or superseded
+	// revision that an action still holds in memory has just been pruned.
+	EnumDepth int `json:"enumDepth,omitempty"`
+	EnumLimit int `json:"enumLimit,omitempty"`
+	EnumInst  int `json:"enumInst,omitempty"`
 }
 
 const relName = "rel"
@@ -57,6 +65,17 @@ func genCases(seed int64, tier string) []core.Case {
 	for _, drv := range []string{"memory", "secrets", "configmaps"} {
 		for _, lim := range []int{2, 3, 10} {
 			out = append(out, core.Case{ID: fmt.Sprintf("long-%s-max%d", drv, lim), Data: core.J(caseData{HSeed: rng.Int63(), Driver: drv, LongLimit: lim})})
+		}
+	}
+	depth := 2
+	if tier == "thorough" {
+		depth = 3
+	}
+	for _, drv := range []string{"memory", "secrets", "configmaps"} {
+		for _, lim := range []int{1, 2} {
+			for inst := 0; inst < 3; inst++ {
+				out = append(out, core.Case{ID: fmt.Sprintf("enum-%s-max%d-i%d", drv, lim, inst), Data: core.J(caseData{HSeed: rng.Int63(), Driver: drv, EnumDepth: depth, EnumLimit: lim, EnumInst: inst})})
+			}
 		}
 	}
 	for h := 0; h < nh; h++ {
@@ -136,6 +155,9 @@ func run(c core.Case, verbose bool) core.Result {
 	var d caseData
 	core.U(c, &d)
 	var res core.Result
+	if d.EnumDepth > 0 {
+		return runEnum(d, verbose)
+	}
 	if d.LongLimit > 0 {
 		return runLong(d, verbose)
 	}
@@ -320,6 +342,62 @@ func plainCtx(op env.Op, before []env.Rec) string {
 		last = r.Status
 	}
 	return s + " (no fault) on a history whose last revision is " + last
+}
+
+// runEnum executes the short exhaustive family (see caseData.EnumDepth).
+func runEnum(d caseData, verbose bool) core.Result {
+	var res core.Result
+	rng := rand.New(rand.NewSource(d.HSeed))
+	fam := gen.NewFamily(rng, gen.FamilyOpts{Versions: 4, MaxSlots: 3})
+	s := setup{fam: fam}
+	injects := []string{"", "wait", "mut"}
+	choices := 6 // (upgrade|rollback) x inject
+	total := 1
+	for i := 0; i < d.EnumDepth; i++ {
+		total *= choices
+	}
+	for seq := 0; seq < total; seq++ {
+		ops := []env.Op{{Kind: "install", Chart: 0, NoHooks: true, Inject: injects[d.EnumInst]}}
+		x := seq
+		for i := 0; i < d.EnumDepth; i++ {
+			c := x % choices
+			x /= choices
+			op := env.Op{Kind: "upgrade", Chart: 1 + (i+c)%3, MaxHistory: d.EnumLimit, NoHooks: true, Inject: injects[c%3]}
+			if c >= 3 {
+				op = env.Op{Kind: "rollback", MaxHistory: d.EnumLimit, NoHooks: true, Inject: injects[c%3]}
+			}
+			ops = append(ops, op)
+		}
+		w := env.NewWorld(d.Driver, "ns1")
+		var hist []string
+		for i, op := range ops {
+			hist = append(hist, op.String())
+			agent := fmt.Sprintf("enum%d", i)
+			b, _ := w.Ledger(relName)
+			r := s.exec(w, agent, op)
+			a, bad := w.Ledger(relName)
+			detail := func() string {
+				return fmt.Sprintf("driver %s | short history (limit %d): %s | op %d %s err=%q | ledger before [%s] after [%s]", d.Driver, d.EnumLimit, strings.Join(hist, " ; "), i, op, r.ErrString(), env.LedgerString(b), env.LedgerString(a))
+			}
+			ctx := strings.Replace(plainCtx(op, b), "(no fault)", "(environment failure: "+map[string]string{"": "none", "wait": "readiness wait", "mut": "first mutation rejected"}[op.Inject]+")", 1) + fmt.Sprintf(" --history-max=%d", op.MaxHistory)
+			judge(&res, w, op, r, b, a, bad, agent, ctx, true, detail)
+			res.Evals++
+			res.Stat("short_history_ops", 1)
+			if r.Err != nil {
+				res.Stat("short_history_ops_failed", 1)
+			}
+			if len(b) > len(a) || (len(b) == len(a) && len(b) > 0 && ref.MaxRev(a) > ref.MaxRev(b)) {
+				res.Stat("short_history_ops_that_pruned", 1)
+			}
+			if verbose {
+				fmt.Println(detail())
+			}
+			if i == len(ops)-1 {
+				res.Key("enum|%s|max%d|%s|%s", d.Driver, d.EnumLimit, op.Kind+"/"+op.Inject, shape(a))
+			}
+		}
+	}
+	return res
 }
 
 // runLong executes the long-history family (see caseData.LongLimit).
